@@ -530,17 +530,25 @@ def mon_c04(s, v):
                     if lost_after_delivery: f.append(("KNOWN-F25: " if b["qos"] == 1 else "KNOWN-F26: ") + msg + f" (its {want.upper()} was delivered by a write that ended with try_again)")
                     else: f.append(msg)
     # content equality and order per QoS
+    # every arrival counts, also a retransmission: a message whose first transmission the client could not acknowledge (the write of its
+    # acknowledgement failed) is legitimately handed over when the broker sends it again, behind what the broker sent in between.  What is
+    # demanded is that the messages handed over (first hand-over of each) can be matched, in order, to arrivals in increasing position -
+    # the same statement as `composed_delivered_in_arrival_order` (a Sublist of the arrivals).
     seq = {0: [], 1: [], 2: []}
     for r in inbound:
-        if r["dec"]["payload"] not in seq[r["dec"]["qos"]]: seq[r["dec"]["qos"]].append(r["dec"]["payload"])
+        seq[r["dec"]["qos"]].append(r["dec"]["payload"])
     order = [bytes.fromhex(ev.split()[4]) if ev.split()[4] != "-" else b"" for i, ev in got]
     for q in (0, 1, 2):
         mine = [t for t in order if t in seq[q]]
         dedup = []
         for t in mine:
             if t not in dedup: dedup.append(t)
-        exp = [t for t in seq[q] if t in dedup]
-        if dedup != exp: f.append(f"QoS {q} messages received in order {dedup[:8]} but the broker sent {exp[:8]}")
+        pos = 0; ok = True
+        for t in dedup:
+            while pos < len(seq[q]) and seq[q][pos] != t: pos += 1
+            if pos == len(seq[q]): ok = False; break
+            pos += 1
+        if not ok: f.append(f"QoS {q} messages received in order {dedup[:8]} but the broker sent {seq[q][:12]} (no order-preserving match of hand-overs to arrivals)")
     for i, ev in got:
         ws = ev.split(); tag = bytes.fromhex(ws[4]) if ws[4] != "-" else b""
         rs = by_tag.get(tag)
